@@ -43,6 +43,51 @@ def offsets_of(case):
     raise ValueError(k)
 
 
+def grid_parameters(case):
+    """(angles, offsets) exactly as the generator will compute them (same global-RNG draws)"""
+    B = case["B"]
+    if case["offsets"] == "penrose":
+        np.random.seed(case["np_seed"])
+        g = np.random.random(5) - 0.5
+        g = g - (np.sum(g) - 1) / 5
+        g = (g + 0.5) % 1 - 0.5
+        r = np.random.random(5)
+        return np.arange(5) * (2 * np.pi / 5) + 0 * (r - 0.5) * 2 * np.pi, g
+    off = offsets_of(case)
+    if off is None:
+        off = np.full(B, 0.2)
+    elif isinstance(off, float):
+        off = np.full(B, off)
+    np.random.seed(case["np_seed"] + 1)
+    r = np.random.random(B)
+    return np.arange(B) * (2 * np.pi / B) + case["disorder"] * (r - 0.5) * 2 * np.pi, np.asarray(off, dtype=float)
+
+
+def grid_margin(case):
+    """genericity of the multigrid: smallest distance (in line spacings) of an intersection point of two
+    grid lines from a grid line of a third bundle (0 = three lines through one point = singular grid), and
+    the smallest distance of two parallel... (float estimate, used only for the 'generic offsets' clause)"""
+    angles, off = grid_parameters(case)
+    B, n = case["B"], case["n"]
+    normals = np.stack([np.cos(angles + np.pi / 2), np.sin(angles + np.pi / 2)], axis=1)
+    grads = np.stack([np.cos(angles), np.sin(angles)], axis=1)
+    lo = np.arange(n) - (n - 1) // 2
+    m = 1.0
+    for b1 in range(B):
+        for b2 in range(b1 + 1, B):
+            # intersection x with x.n1 = off1 + k1, x.n2 = off2 + k2
+            M = np.array([normals[b1], normals[b2]])
+            K1, K2 = np.meshgrid(lo + off[b1], lo + off[b2], indexing="ij")
+            X = np.linalg.solve(M, np.stack([K1.ravel(), K2.ravel()]))      # 2 x n^2
+            for b3 in range(B):
+                if b3 in (b1, b2):
+                    continue
+                d = normals[b3] @ X - off[b3]
+                k = np.clip(np.round(d), lo[0], lo[-1])
+                m = min(m, float(np.min(np.abs(d - k))))
+    return m
+
+
 def generate(case):
     """returns the lattice; raises what the generator raises"""
     if case["offsets"] == "penrose":
@@ -92,6 +137,19 @@ def evaluate(ctx, cases, label):
     built, lines = [], []
     for case in cases:
         fam = f"B={case['B']}/{case['offsets']}/disorder={case['disorder']}"
+        margin = grid_margin(case)
+        ex["min_grid_margin_evaluated"] = min(ex.get("min_grid_margin_evaluated", 1.0), margin) if margin >= 1e-9 else ex.get("min_grid_margin_evaluated", 1.0)
+        if margin < 1e-9:
+            if case["offsets"] == "random_offsets":
+                # random_offsets(B) forces sum(offsets) = 1; on 3 bundles that is a singular (all-triple-point) grid:
+                # NOT generic, the property says nothing there (observation outside the property, kept in evidence)
+                res.skip("nongeneric:random_offsets-B3-integer-sum" if case["B"] == 3 else "nongeneric:random_offsets-singular-grid")
+                ex.setdefault("random_offsets_singular_cases", []).append(
+                    {"B": case["B"], "n": case["n"], "np_seed": case["np_seed"], "disorder": case["disorder"], "margin": margin,
+                     "offsets": offsets_of(case).tolist()})
+            else:
+                res.skip("nongeneric-offsets(three grid lines within 1e-9 of a common point)")
+            continue
         try:
             lat = generate(case)
         except Exception as e:
